@@ -46,7 +46,13 @@ def cases(ctx, tier, seed, kill=False, n=30):
             if A:
                 ap = os.path.join(ctx['work'], 'zA%d%s.zck' % (i, 'k' if kill else '')); open(ap, 'wb').write(A)
             tg = U.targets(rnd, A, Bz)
-            tname = rnd.choice(sorted(tg)); tb = tg[tname]
+            tname = rnd.choice(sorted(tg))
+            # a few runs are reserved for targets LONGER than the new version: complete with leftover bytes behind it (plain runs), and
+            # a longer garbage file whose last chunk write is the one the kill lets complete (so the restart finds every chunk valid)
+            force_last = False
+            if not kill and i < 3: tname = 'complete-plus-tail'
+            if kill and i < 4: tname = 'garbage-long'; force_last = True
+            tb = tg[tname]
             m = rnd.choice([1, 2, 3, 10 ** 9, 10 ** 9])
             srv = server(m)
             cwd = os.path.join(ctx['work'], 'dl%d%s' % (i, 'k' if kill else '')); os.makedirs(cwd, exist_ok=True)
@@ -67,6 +73,7 @@ def cases(ctx, tier, seed, kill=False, n=30):
                 shutil.rmtree(c2, ignore_errors=True)
                 if w < 1: continue
                 k = rnd.randrange(1, w + 1); part = rnd.choice('0ha')
+                if force_last: k = w; part = 'a'
                 r0 = _run(cmd, cwd=cwd, capture_output=True, timeout=60,
                                     env=dict(env, LD_PRELOAD=so, KILL_PATH=tp, KILL_K=str(k), KILL_PART=part))
                 killed = ' killed=%d:%s:%d' % (k, part, r0.returncode)
